@@ -11,5 +11,5 @@ rm -rf /verif/.work/evidence.keep && cp -r /verif/evidence /verif/.work/evidence
 for c in $CHECKS; do
   ( cd /verif && VERIF_REPO=/repo timeout 3000 ./check $c 2>&1 | grep -v 'obligation FAILED: theorem' | cut -c1-500 | tail -6 ; echo "== $c exit ${PIPESTATUS[0]}" )
 done
-git -C /repo checkout -- .
+git -C /repo checkout -- . && git -C /repo clean -fdq
 rm -rf /verif/evidence && mv /verif/.work/evidence.keep /verif/evidence
